@@ -717,8 +717,12 @@ func (x *Exec) step(op world.Op) {
 	switch op.K {
 	case "apply", "ret", "retseq", "when", "cancel", "bad":
 		x.callTarget(op.T, int(op.W%3), op.W^0x5bd1e995, op.K == "when")
-		// no other method of the same type may be affected
+		// no other method of the same type may be affected (sequential worlds only: in the concurrent
+		// world a sibling may belong to another task and be in flux)
 		for i, sb := range Targets[op.T].Siblings {
+			if x.Foreign != nil {
+				break
+			}
 			x.callTarget(sb, thunk.FormDirect, op.W+uint64(i)*7919, false)
 		}
 	}
@@ -1099,6 +1103,11 @@ func (x *Exec) final() {
 	}
 	mocker.CloseTrace()
 	mocker.CloseDebug()
+	if x.Faults && x.Foreign == nil {
+		// sequential fault configuration: a failed re-protect may have left a page RWX
+		simenv.RestoreRX(simcore.WritablePages())
+		simcore.ResetPageTable()
+	}
 	x.checkImage()
 	r := rng.Derive(x.p.Seed, 99)
 	for _, ti := range x.sortedTargets() {
